@@ -64,7 +64,7 @@ def assumed_checks(s, roles):
     return out
 
 
-def check_bound(run, db, fns=None, rule='R-BOUND'):
+def check_bound(run, db, fns=None, rule='R-BOUND', end_pred=None, site_fn=None):
     fns = bound_candidates(db) if fns is None else fns
     n = 0
     for f in fns:
@@ -130,6 +130,20 @@ def check_bound(run, db, fns=None, rule='R-BOUND'):
                     a = c[1]['args']
                     # evaluate the arguments as they were substituted when the call was summarised: use canonical call string
                     comps.append(('assume', c))
+                # unsigned subtractions inside a guard that talks about the advance: B <= A must have been established
+                for ct, tk in s.cond_terms:
+                    c0 = linear.compare(ct, tk, {})
+                    if not c0 or not (set(c0[0]) & set(delta)):
+                        continue
+                    for st in subterms(ct):
+                        if isinstance(st, dict) and st.get('k') == 'bin' and st.get('op') == '-' and st.get('uns'):
+                            la, lb = linear.lin(st['l']), linear.lin(st['r'])
+                            if not [a for a in lb if a]:
+                                continue
+                            need = linear.sub(lb, la)
+                            if not any(c[0] != 'assume' and c[0] == need for c in comps):
+                                problems.append('the guard subtracts in unsigned arithmetic (`%s`) without having established that the subtrahend does not '
+                                                'exceed the minuend: the difference wraps around and the guard lets any size through' % tstr(st)[:90])
                 found = None
                 near = None
                 for c in comps:
@@ -185,9 +199,12 @@ def check_bound(run, db, fns=None, rule='R-BOUND'):
                 if m and not any(m.group(1) in a for a in rest):
                     problems.append('the cursor %s is checked against the end [%s] of a different region' % (K, linear.fmt(rest)))
                     continue
+                if end_pred is not None and not end_pred(rest):
+                    problems.append('the advance is bounded by [%s], which is not the end of this region' % linear.fmt({a: -v for a, v in rest.items()}))
+                    continue
                 detail_ok = 'advance [%s] <= [%s] - cursor' % (linear.fmt(delta), linear.fmt({a: -v for a, v in rest.items()}))
         inst = '%s [%s]' % (f.display, db.config)
-        site = {'function': site_name(f), 'role': 'bump equals what was checked'}
+        site = {'function': site_fn or site_name(f), 'role': 'bump equals what was checked'}
         n += 1
         if problems:
             run.violation(rule, inst, f.loc, '; '.join(sorted(set(problems))[:2]), site=site)
